@@ -124,7 +124,7 @@ def base_fn(name):
 def gen_decl_to_skip(e):
     """a Lean error inside a generated file: the translated function it belongs to ('Module.fn'), or None"""
     m = re.search(r'Gen[FRQ]/(\w+)\.lean$', e['file'])
-    if not m or not e.get('decl') or m.group(1) in ('Dispatch', 'Effects', 'Api', 'Coord', 'Ntv2d', 'AnglesCls'):
+    if not m or not e.get('decl') or m.group(1) in ('Dispatch', 'Effects', 'Api', 'Coord', 'Ntv2d', 'NtvSel', 'AnglesCls'):
         return None
     decl = e['decl'].replace('«', '').replace('»', '')
     try:
